@@ -1,0 +1,195 @@
+//go:build verif
+
+// Contracts for the lifecyclers (C08, C09), checked by /verif/govc (comment-only file).
+//
+// Every ring write a lifecycler makes is a compare-and-swap callback: a sequential function from the ring it is handed
+// to the ring it returns. The contracts below hold for EVERY input ring; the KV store serialises the callbacks (C07).
+
+package ring
+
+//@ pred sameIngestersExcept(a map[string]InstanceDesc, b map[string]InstanceDesc, id string) =
+//@      forall n string :: n != id ==> (in(n, a) <==> in(n, b)) && (in(n, a) ==> same(a[n], b[n]))
+//@
+//@ # othersUntouched: every entry other than self is exactly as in the ring handed to the callback (nothing if it was empty)
+//@ pred othersUntouched(out map[string]InstanceDesc, in interface{}, self string) =
+//@      (in == nil ==> (forall n string :: n != self ==> !in(n, out))) &&
+//@      (in != nil ==> sameIngestersExcept(out, astype(in, "*Desc").Ingesters, self))
+//@
+//@ func GetOrCreateRingDesc
+//@   property C08 C09
+//@   ensures d == nil ==> result != nil && !isnil(result.Ingesters) && (forall n string :: !in(n, result.Ingesters))
+//@   ensures d != nil ==> same(result, astype(d, "*Desc"))
+//@
+//@ func Desc.AddIngester
+//@   property C08 C09
+//@   ensures  entry: in(id, d.Ingesters) && d.Ingesters[id].Id == id && d.Ingesters[id].Addr == addr && d.Ingesters[id].Zone == zone && d.Ingesters[id].State == state &&
+//@              same(d.Ingesters[id].Tokens, tokens) && d.Ingesters[id].ReadOnly == readOnly && !isnil(d.Ingesters)
+//@   ensures  registered: d.Ingesters[id].RegisteredTimestamp == timeToUnixSecons(registeredAt)
+//@   ensures  frame: sameIngestersExcept(d.Ingesters, old(d).Ingesters, id)
+//@
+//@ func timeToUnixSecons
+//@   property C08 C09
+//@   ensures iszero(t) ==> result == 0
+//@   ensures !iszero(t) ==> result == unix(t)
+//@   pure
+//@
+//@ func Desc.RemoveIngester
+//@   property C08
+//@   ensures !in(id, d.Ingesters) && sameIngestersExcept(d.Ingesters, old(d).Ingesters, id) && isnil(d.Ingesters) == isnil(old(d).Ingesters)
+//@
+//@ # the explicit hand-over: the source loses its tokens, the target receives them, nobody else is touched
+//@ func Desc.ClaimTokens
+//@   property C08
+//@   requires !isnil(d.Ingesters) && from != to
+//@   ensures  forall n string :: n != from && n != to ==> (in(n, d.Ingesters) <==> in(n, old(d).Ingesters)) && (in(n, d.Ingesters) ==> same(d.Ingesters[n], old(d).Ingesters[n]))
+//@   ensures  in(to, d.Ingesters) && (in(from, old(d).Ingesters) ==> len(d.Ingesters[from].Tokens) == 0 && same(d.Ingesters[to].Tokens, old(d).Ingesters[from].Tokens))
+//@
+//@ # accessors of the lifecycler's remembered state: identity and configuration never change
+//@ func Lifecycler.GetState
+//@   property C08
+//@   ensures result == i.state
+//@   pure
+//@ func Lifecycler.getTokens
+//@   property C08
+//@   ensures same(result, i.tokens)
+//@   pure
+//@ func Lifecycler.getRegisteredAt
+//@   property C08
+//@   ensures same(result, i.registeredAt)
+//@   pure
+//@ func Lifecycler.GetReadOnlyState
+//@   property C08
+//@   modifies nothing
+//@ func Lifecycler.setState
+//@   property C08
+//@   ensures i.state == state && i.ID == old(i).ID && i.Addr == old(i).Addr && i.Zone == old(i).Zone && same(i.cfg, old(i).cfg) && same(i.tokens, old(i).tokens) && same(i.registeredAt, old(i).registeredAt)
+//@ func Lifecycler.setTokens
+//@   property C08
+//@   ensures same(i.tokens, tokens) && i.ID == old(i).ID && i.Addr == old(i).Addr && i.Zone == old(i).Zone && same(i.cfg, old(i).cfg) && i.state == old(i).state && same(i.registeredAt, old(i).registeredAt)
+//@ func Lifecycler.setRegisteredAt
+//@   property C08
+//@   ensures same(i.registeredAt, registeredAt) && i.ID == old(i).ID && i.Addr == old(i).Addr && i.Zone == old(i).Zone && same(i.cfg, old(i).cfg) && i.state == old(i).state && same(i.tokens, old(i).tokens)
+//@ func Lifecycler.setReadOnlyState
+//@   property C08
+//@   ensures i.ID == old(i).ID && i.Addr == old(i).Addr && i.Zone == old(i).Zone && same(i.cfg, old(i).cfg) && i.state == old(i).state && same(i.tokens, old(i).tokens) && same(i.registeredAt, old(i).registeredAt)
+//@ assume func Lifecycler.compareTokens
+//@   modifies nothing
+//@
+//@ # ---- the CAS callbacks of the classic lifecycler ---------------------------------------------------------
+//@ # heartbeat / re-registration: only the own entry is written; state and tokens are the remembered ones;
+//@ # the registration time is kept when the entry exists and is refreshed only when the entry is missing
+//@ func Lifecycler.updateConsul$1
+//@   property C08 C09
+//@   ensures  frame: r2 == nil && r0 != nil ==> othersUntouched(ringDesc.Ingesters, in, i.ID)
+//@   ensures  own: r2 == nil ==> r0 != nil && in(i.ID, ringDesc.Ingesters) && ringDesc.Ingesters[i.ID].State == i.state && ringDesc.Ingesters[i.ID].Id == i.ID &&
+//@              ringDesc.Ingesters[i.ID].Addr == i.Addr && ringDesc.Ingesters[i.ID].Zone == i.Zone
+//@   ensures  kept_tokens: in != nil && in(old(i).ID, astype(in, "*Desc").Ingesters) ==> same(ringDesc.Ingesters[i.ID].Tokens, astype(in, "*Desc").Ingesters[i.ID].Tokens) && same(i.registeredAt, old(i).registeredAt)
+//@   ensures  wiped: in == nil || !in(old(i).ID, astype(in, "*Desc").Ingesters) ==> same(ringDesc.Ingesters[i.ID].Tokens, old(i).tokens)
+//@   ensures  identity: i.ID == old(i).ID && i.state == old(i).state && same(i.tokens, old(i).tokens)
+//@
+//@ func Lifecycler.unregister$1
+//@   property C08
+//@   ensures  in == nil ==> r2 != nil && r0 == nil
+//@   ensures  in != nil && istype(in, "*Desc") && astype(in, "*Desc") != nil ==> r2 == nil && !in(i.ID, ringDesc.Ingesters) && sameIngestersExcept(ringDesc.Ingesters, astype(in, "*Desc").Ingesters, i.ID)
+//@
+//@ func Lifecycler.autoJoin$1
+//@   property C08 C09
+//@   ensures  frame: othersUntouched(ringDesc.Ingesters, in, i.ID)
+//@   ensures  own: r2 == nil && r0 != nil && in(i.ID, ringDesc.Ingesters) && ringDesc.Ingesters[i.ID].State == targetState && i.state == targetState && i.ID == old(i).ID
+//@   ensures  tokens: same(ringDesc.Ingesters[i.ID].Tokens, i.tokens)
+//@
+//@ func Lifecycler.verifyTokens$1
+//@   property C08
+//@   ensures  frame: r0 != nil ==> othersUntouched(ringDesc.Ingesters, in, i.ID)
+//@   ensures  identity: i.ID == old(i).ID && i.state == old(i).state
+//@
+//@ # only these externally triggered transitions are accepted; anything else leaves the state alone
+//@ func Lifecycler.changeState
+//@   property C08
+//@   ensures  refused: !((old(i).state == PENDING && state == JOINING) || (old(i).state == JOINING && state == PENDING) || (old(i).state == JOINING && state == ACTIVE) ||
+//@              (old(i).state == PENDING && state == ACTIVE) || (old(i).state == ACTIVE && state == LEAVING)) ==> result != nil && i.state == old(i).state
+//@ assume func Lifecycler.updateConsul
+//@   ensures i.state == old(i).state && i.ID == old(i).ID
+//@
+//@ # reading the token lists never changes the descriptor's entries (GetTokens may sort an unsorted token slice in place:
+//@ # an assumption on legacy data, listed)
+//@ assume func Desc.TokensFor
+//@   modifies nothing
+//@   ensures same(r0, get(d.Ingesters, id).Tokens)
+//@ assume func Desc.GetTokens
+//@   modifies nothing
+//@
+//@ func InstanceDesc.GetRegisteredAt
+//@   property C08 C09
+//@   option nilable i
+//@   ensures i != nil && i.RegisteredTimestamp > 0 ==> unix(result) == i.RegisteredTimestamp && !iszero(result)
+//@   modifies nothing
+//@ func InstanceDesc.GetTokens
+//@   property C08 C09
+//@   option nilable m
+//@   ensures m != nil ==> same(result, m.Tokens)
+//@   pure
+//@ assume func InstanceDesc.GetReadOnlyState
+//@   modifies nothing
+//@
+//@ # ---- start-up after a crash at any point: the contract holds for EVERY ring content and tokens file ----------
+//@ func Lifecycler.initRing$1
+//@   property C09 C08
+//@   ensures  frame: r0 != nil ==> othersUntouched(ringDesc.Ingesters, in, i.ID)
+//@   ensures  identity: i.ID == old(i).ID
+//@   # entry absent, tokens file present: registered with exactly the file's tokens, ACTIVE when there are enough of them
+//@   ensures  fromfile: (in == nil || !in(old(i).ID, astype(in, "*Desc").Ingesters)) && len(tokensFromFile) > 0 ==>
+//@              in(i.ID, ringDesc.Ingesters) && same(ringDesc.Ingesters[i.ID].Tokens, tokensFromFile) && same(i.tokens, tokensFromFile) &&
+//@              (len(tokensFromFile) >= i.cfg.NumTokens ==> ringDesc.Ingesters[i.ID].State == ACTIVE)
+//@   # entry absent, no tokens file: registered without tokens in the remembered state
+//@   ensures  fresh: (in == nil || !in(old(i).ID, astype(in, "*Desc").Ingesters)) && len(tokensFromFile) == 0 ==>
+//@              in(i.ID, ringDesc.Ingesters) && len(ringDesc.Ingesters[i.ID].Tokens) == 0 && ringDesc.Ingesters[i.ID].State == old(i).state
+//@   # entry present: registration time is never changed
+//@   ensures  registration_kept: in != nil && astype(in, "*Desc") != nil && in(old(i).ID, astype(in, "*Desc").Ingesters) ==>
+//@              in(i.ID, ringDesc.Ingesters) && ringDesc.Ingesters[i.ID].RegisteredTimestamp == astype(in, "*Desc").Ingesters[i.ID].RegisteredTimestamp
+//@   # died while joining: the ring entry is left as it is, the lifecycle restarts from PENDING locally
+//@   ensures  joining: in != nil && astype(in, "*Desc") != nil && in(old(i).ID, astype(in, "*Desc").Ingesters) && astype(in, "*Desc").Ingesters[old(i).ID].State == JOINING ==>
+//@              same(ringDesc.Ingesters, astype(in, "*Desc").Ingesters) && i.state == old(i).state
+//@   # died while leaving: back to ACTIVE
+//@   ensures  leaving: in != nil && astype(in, "*Desc") != nil && in(old(i).ID, astype(in, "*Desc").Ingesters) && astype(in, "*Desc").Ingesters[old(i).ID].State == LEAVING ==>
+//@              i.state == ACTIVE && (r0 != nil ==> ringDesc.Ingesters[i.ID].State == ACTIVE)
+//@   # any other state: tokens and state are taken over unchanged
+//@   ensures  resume: in != nil && astype(in, "*Desc") != nil && in(old(i).ID, astype(in, "*Desc").Ingesters) && astype(in, "*Desc").Ingesters[old(i).ID].State != LEAVING &&
+//@              astype(in, "*Desc").Ingesters[old(i).ID].State != JOINING ==>
+//@              i.state == astype(in, "*Desc").Ingesters[i.ID].State && same(i.tokens, astype(in, "*Desc").Ingesters[i.ID].Tokens) &&
+//@              same(ringDesc.Ingesters[i.ID].Tokens, astype(in, "*Desc").Ingesters[i.ID].Tokens) && ringDesc.Ingesters[i.ID].State == astype(in, "*Desc").Ingesters[i.ID].State
+//@
+//@ # ---- BasicLifecycler ---------------------------------------------------------------------------------------
+//@ # registration (also after a restart): only the own entry is written; the registration time is kept iff the entry existed
+//@ func BasicLifecycler.registerInstance$1
+//@   property C08 C09
+//@   ensures  frame: r2 == nil ==> r0 != nil && othersUntouched(ringDesc.Ingesters, in, l.cfg.ID)
+//@   ensures  own: in(l.cfg.ID, ringDesc.Ingesters) && ringDesc.Ingesters[l.cfg.ID].Id == l.cfg.ID && ringDesc.Ingesters[l.cfg.ID].Addr == l.cfg.Addr && ringDesc.Ingesters[l.cfg.ID].Zone == l.cfg.Zone
+//@   ensures  registration_kept: in != nil && astype(in, "*Desc") != nil && in(l.cfg.ID, astype(in, "*Desc").Ingesters) && astype(in, "*Desc").Ingesters[l.cfg.ID].RegisteredTimestamp > 0 ==>
+//@              ringDesc.Ingesters[l.cfg.ID].RegisteredTimestamp == astype(in, "*Desc").Ingesters[l.cfg.ID].RegisteredTimestamp
+//@
+//@ # state change: nothing but the state of the own entry
+//@ func BasicLifecycler.changeState$1
+//@   property C08
+//@   ensures  result == (old(i).State != state) && i.State == state
+//@   ensures  i.Addr == old(i).Addr && i.Zone == old(i).Zone && same(i.Tokens, old(i).Tokens) && i.RegisteredTimestamp == old(i).RegisteredTimestamp && i.Timestamp == old(i).Timestamp && i.Id == old(i).Id
+//@
+//@ # auto-forget removes exactly the entries whose last heartbeat is older than the forget period (possibly none), then defers to the next delegate
+//@ func AutoForgetDelegate.OnRingInstanceHeartbeat
+//@   property C08
+//@   requires !isnil(ringDesc.Ingesters)
+//@   ghost var snap map[string]InstanceDesc = ringDesc.Ingesters
+//@   loop 0 invariant !isnil(ringDesc.Ingesters)
+//@   loop 0 invariant forall n string :: in(n, ringDesc.Ingesters) ==> in(n, $coll) && same(ringDesc.Ingesters[n], $coll[n])
+//@   loop 0 invariant forall n string :: in(n, $coll) && !$visited[n] ==> in(n, ringDesc.Ingesters)
+//@   at before@ring.BasicLifecyclerDelegate.OnRingInstanceHeartbeat: assert forall n string :: in(n, ringDesc.Ingesters) ==> in(n, snap) && same(ringDesc.Ingesters[n], snap[n])
+//@
+//@ # the standard register delegate keeps the tokens the instance already had
+//@ func InstanceRegisterDelegate.OnRingInstanceRegister
+//@   property C08 C09
+//@   ensures r0 == d.registerState
+//@   ensures instanceExists ==> len(r1) >= len(instanceDesc.Tokens) && (forall j int :: 0 <= j && j < len(instanceDesc.Tokens) ==> r1[j] == instanceDesc.Tokens[j])
+//@
+//@ # delegates are user code: they are assumed not to modify the lifecycler object or the ring copy they are handed at registration
+//@ assume func BasicLifecyclerDelegate.OnRingInstanceRegister
+//@   modifies nothing
